@@ -19,7 +19,7 @@ META = {
                   "typelib.py.frames.extract/getcaller", "typelib.ctx.TypeContext.__missing__", "typelib.graph.get_type_graph/static_order",
                   "typelib.marshals.api.marshaller", "typelib.unmarshals.api.unmarshaller", "typelib.codecs.codec"],
     "bounds": {
-        "quick": "bases {int, list[int], Point, dict[str,int]}; every wrapper chain of length 1 and 2 over {NewType, TypeAliasType(value), "
+        "quick": "bases {int, list[int], dict[str,int], a dataclass imported into the referencing module, a dataclass defined in it}; every wrapper chain of length 1 and 2 over {NewType, TypeAliasType(value), "
                  "TypeAliasType('string'), Final, ClassVar, 'string reference', ForwardRef(module=..)} that Python permits; positions root, "
                  "list[.], dict[str, .], tuple[., int], Union[., None], dataclass field; 10 inputs per base (valid wire forms, text, "
                  "wrong-typed, None) through unmarshaller, marshaller and codec; string references issued from the defining module, "
@@ -42,9 +42,11 @@ INPUTS = {
     "list[int]": [[1, 2], ["1", 2], "[1, 2]", b"[3]", None, 5, {"a": 1}, (), [["x"]]],
     "Point": [{"x": 1, "y": 2}, {"x": "1", "y": "2"}, '{"x": 1, "y": 2}', M.Point(1, 2), None, {"x": 1}, [("x", 1), ("y", 2)], 7],
     "dict[str,int]": [{"a": 1}, {"a": "1"}, '{"a": 1}', None, [("a", 1)], 3, {"a": "x"}, {}],
+    "WPoint": [{"x": 1, "y": 2}, {"x": "1", "y": "2"}, '{"x": 1, "y": 2}', wrapmod.WPoint(1, 2), None, {"x": 1}, 7],
 }
 VALUES = {
     "int": [1, -5, True], "list[int]": [[1, 2], [], (3,)], "Point": [M.Point(1, 2)], "dict[str,int]": [{"a": 1}, {}],
+    "WPoint": [wrapmod.WPoint(1, 2)],
 }
 
 
@@ -166,11 +168,18 @@ def make_chain(base, pos, maxlen, timeout):
 
 
 def _site(kinds, pos, base="Point"):
-    """Identity of a finding: the kind of reference involved, what it names and where it sits."""
+    """Identity of a finding: which reference forms are involved, what the innermost one names (a class defined
+    in the referencing module / a class imported into it / a module-level alias variable) and where it sits."""
     refy = [k for k in kinds if k in ("str", "ForwardRef", "alias_str")]
     if not refy:
         return "wrap:" + ("nested" if pos != "root" else "root") + ":" + "+".join(kinds) + "@" + pos
-    target = "class" if base == "Point" and kinds[0] in ("str", "ForwardRef", "alias_str") else "alias_variable"
+    first_is_ref = kinds[0] in ("str", "ForwardRef", "alias_str")
+    if first_is_ref and base == "WPoint":
+        target = "local_class"
+    elif first_is_ref and base == "Point":
+        target = "imported_class"
+    else:
+        target = "alias_variable"
     inner = pos != "root" or len(kinds) > 1 and kinds[-1] in ("Final", "ClassVar", "NewType", "alias")
     return f"ref_to_{target}:" + ("nested" if inner else "root") + ":" + "+".join(kinds) + "@" + pos
 
@@ -178,7 +187,7 @@ def _site(kinds, pos, base="Point"):
 def make_origin(base, timeout):
     """String references issued from the defining module, another module (qualified), nested call depth."""
     name, T = wrapmod.BASES[base]
-    tgt = ":class" if base == "Point" else ":alias_variable"
+    tgt = ":class" if base in ("Point", "WPoint") else ":alias_variable"
 
     def body(c0: int, c1: int, c2: int):
         from typelib import marshals, unmarshals
@@ -256,7 +265,7 @@ def conditions(tier, seed):
         for pos in POSITIONS:
             out.append(make_chain(base, pos, maxlen, to))
         out.append(make_origin(base, to))
-    for base in ("int", "list[int]", "Point"):
+    for base in ("int", "list[int]", "Point", "WPoint"):
         for kind in wrapmod.WRAPPERS:
             out.append(make_sym(base, kind, 1 if tier == "quick" else 2, to))
     return out
